@@ -1585,6 +1585,7 @@ fn gen_surgery(rng: &mut Rng, info: &FontInfo) -> Option<Surgery> {
         lookups,
         min,
         max,
+        axis: if rng.pct(12) { *rng.pick(&[1u16, 2, 7, 0xFFFF]) } else { 0 },
     })
 }
 
@@ -1640,6 +1641,7 @@ fn gen_surgery_gpos(rng: &mut Rng, info: &FontInfo) -> Option<Surgery> {
         lookups,
         min,
         max,
+        axis: if rng.pct(12) { *rng.pick(&[1u16, 2, 7, 0xFFFF]) } else { 0 },
     })
 }
 
